@@ -13,7 +13,9 @@ Record setup := SU {
   su_decl : decl;
   su_dimeq : list (uc * list string) }.            (* [dimeq_build (d_reg su_decl)], computed once *)
 
-Inductive tree := Node (io : bool * op) (expected : option answer) (kids : list tree).
+Inductive tree :=
+| Node (io : bool * op) (expected : option answer) (kids : list tree)
+| Fresh2 (kids : list tree).       (* a second registry is created: registry 2 starts afresh *)
 Inductive c13case := HRun (su : setup) (ts : list tree).
 
 Definition tk_of (l : list (string * list (string * Qc))) (s : string) : option (list (string * Qc)) :=
@@ -37,6 +39,7 @@ Fixpoint check_tree (su : setup) (w : world) (t : tree) {struct t} : bool :=
       let wa := wstep (su_qk su) (tk_of (su_tk su)) w io in
       match e with Some x => answer_eqb wa.2 x | None => true end
       && forallb (check_tree su wa.1) kids
+  | Fresh2 kids => forallb (check_tree su (W (w_r1 w) (w_r2 (world0 su)))) kids
   end.
 Definition c13_ok (c : c13case) : bool :=
   match c with HRun su ts => forallb (check_tree su (world0 su)) ts end.
@@ -77,6 +80,16 @@ Fixpoint bad_tree (su : setup) (w : world) (t : tree) {struct t} : option (list 
                end
            end) kids O
       else Some ([], show_answer wa.2)
+  | Fresh2 kids =>
+      (fix go (ks : list tree) (i : nat) : option (list nat * pans) :=
+         match ks with
+         | [] => None
+         | k :: r =>
+             match bad_tree su (W (w_r1 w) (w_r2 (world0 su))) k with
+             | Some (p, x) => Some (i :: p, x)
+             | None => go r (S i)
+             end
+         end) kids O
   end.
 Definition c13_bad (c : c13case) : option (list nat * pans) :=
   match c with
